@@ -11,6 +11,13 @@ if TYPE_CHECKING:
 logger = logging.getLogger(__name__)
 
 
+def _forget_cached_iid(obj: "ServiceOrCharType") -> None:
+    """Drop the cached HAP representation of obj, it contains the IID."""
+    clear_cache = getattr(obj, "_clear_cache", None)
+    if clear_cache is not None:
+        clear_cache()
+
+
 class IIDManager:
     """Maintains a mapping between Service/Characteristic objects and IIDs."""
 
@@ -38,6 +45,7 @@ class IIDManager:
         iid = self.get_iid_for_obj(obj)
         self.iids[obj] = iid
         self.objs[iid] = obj
+        _forget_cached_iid(obj)
 
     def get_iid_for_obj(self, obj: "ServiceOrCharType") -> int:
         """Get the IID for the given object.
@@ -62,6 +70,7 @@ class IIDManager:
             logger.error("Object %s not found.", obj)
             return None
         del self.objs[iid]
+        _forget_cached_iid(obj)
         return iid
 
     def remove_iid(self, iid: int) -> Optional["ServiceOrCharType"]:
@@ -71,4 +80,5 @@ class IIDManager:
             logger.error("IID %s not found.", iid)
             return None
         del self.iids[obj]
+        _forget_cached_iid(obj)
         return obj
